@@ -83,7 +83,7 @@ func watched(args []string, f func(string) string) int {
 type totalHost struct{ mods map[string]string }
 
 func (h totalHost) GetBuiltinImport(m, v string, s errors.Span, k past.IMPORT_KIND) (analyzer.BuiltinImport, bool, bool) {
-	return hms.TestingAnalyzerHost{}.GetBuiltinImport(m, v, s, k)
+	return hostBuiltinImport(m, v, s, k)
 }
 func (h totalHost) ResolveCodeModule(m string) (string, bool, error) {
 	c, ok := h.mods[m]
